@@ -158,6 +158,10 @@ def prog_cases(res, rng, quick_n, thorough_n, with_queries):
         nops = 6 + rng.below(35 if res.tier == "quick" else 150)
         kind, body = gen.gen_prog(rng, nv, nops, queries=with_queries)
         cf.add(kind, body, meta={"nvars": nv})
+    for i in range(max(50, n // 6)):
+        nv = 4 + rng.below(3 if res.tier == "quick" else 5)
+        kind, body = gen.gen_prog_sparse(rng, nv, queries=with_queries)
+        cf.add(kind, body, prefix="s", meta={"nvars": nv})
     return cf
 
 
@@ -705,6 +709,11 @@ def check_C13(ck, res, replay):
                               "cubes %d %d %d" % (a, rng.below(2), rng.below(nv)), "cubes %d %d %d" % (a, rng.below(2), rng.below(nv))])
                 body.append("q " + q)
             cf.add(kind, body, meta={"nvars": nv})
+        # sparse diagrams (children with incomparable supports): dependency sets and impacts of every top
+        for i in range(200 if res.tier == "quick" else 5000):
+            nv = 4 + rng.below(4)
+            kind, body = gen.gen_prog_sparse(rng, nv, queries=True)
+            cf.add(kind, body, prefix="s", meta={"nvars": nv})
     impl, model = correspond(ck, res, cf, hbin, "C13")
     nontriv = set()
     mism = 0
@@ -1037,6 +1046,10 @@ def check_C12(ck, res, replay):
             for _ in range(5):
                 a = rng.below(nreg)
                 body.append("q " + rng.pick(["paths %d %d" % (a, rng.below(2)), "models %d %d" % (a, rng.below(2)), "depth %d" % a, "deps %d" % a]))
+            progs.append((body, {"nvars": nv}))
+        for _ in range(60 if quick else 1200):
+            nv = 4 + rng.below(4)
+            kind, body = gen.gen_prog_sparse(rng, nv, queries=True)
             progs.append((body, {"nvars": nv}))
         for text, origin in adf_case_stream(res, rng, 80 if quick else 2500, 7, with_tt2=False):
             qs = [["grounded"], ["complete"], ["stable"], ["stmca"], ["stmng", "MinModMinPathsMaxVarImp"], ["counts", "0"]]
@@ -2110,11 +2123,18 @@ def slow_scenarios(ck, res, sh, which):
             b.register("alice", "pb"); b.login("alice", "pb")
             time.sleep(1.0)
             b.add("p", "s(ownB).ac(ownB,c(f)).", "Naive")
-            time.sleep(21.5)           # alice's task (started first) completes, bob's is still sleeping
-            doc = [d for d in server.coll("adf-problems") if d["username"] == "alice" and d["name"] == "p"]
-            if doc and doc[0]["adf"]["type"] == "Some" and "secretA" in json.dumps(doc[0]["adf"]):
+            # alice's task (started first) ends about 1 s before bob's: in that window (for good, if the
+            # running times differ the other way) bob's problem holds alice's diagram
+            t0 = time.time(); seen = False
+            while time.time() - t0 < 24 and not seen:
+                doc = [d for d in server.coll("adf-problems") if d["username"] == "alice" and d["name"] == "p"]
+                if doc and doc[0]["adf"]["type"] == "Some" and "secretA" in json.dumps(doc[0]["adf"]):
+                    seen = True
+                time.sleep(0.1)
+            if seen:
+                st, body = b.get("p")
                 res.violations.append({"key": "isolation:rename-race", "what": "the parse result of alice's problem (started before she renamed herself) was written into the problem of the user who re-registered her old name",
-                                       "events": ["alice adds p", "alice renames to alice2", "bob registers as alice, adds p", "alice's task completes"]})
+                                       "events": ["alice adds p", "alice renames to alice2", "bob registers as alice, adds p", "alice's task completes"], "bob_get": body[:600]})
             time.sleep(3.0)
         if which == "C16":
             # (2) delete + re-add of a problem name while its first parse task is pending (C16)
@@ -2124,11 +2144,19 @@ def slow_scenarios(ck, res, sh, which):
             c.delete("q")
             time.sleep(1.0)
             c.add("q", "s(second).ac(second,c(f)).", "Naive")
-            time.sleep(21.5)
-            doc = [d for d in server.coll("adf-problems") if d["username"] == "carol" and d["name"] == "q"]
-            if doc and doc[0]["adf"]["type"] == "Some" and "first" in json.dumps(doc[0]["adf"]) and "second" in doc[0]["code"]:
+            # every task of this build sleeps 20 s: the first task ends about 1 s before the second one;
+            # in that window the new problem shows the diagram of the deleted one (with unequal running
+            # times the second task can end first and the wrong diagram stays for good)
+            t0 = time.time(); seen = False
+            while time.time() - t0 < 24 and not seen:
+                doc = [d for d in server.coll("adf-problems") if d["username"] == "carol" and d["name"] == "q"]
+                if doc and doc[0]["adf"]["type"] == "Some" and "first" in json.dumps(doc[0]["adf"]) and "second" in doc[0]["code"]:
+                    seen = True
+                time.sleep(0.1)
+            if seen:
+                st, body = c.get("q")
                 res.violations.append({"key": "server:stale-parse-after-readd", "what": "after delete + re-add of a problem name the pending parse task of the deleted problem stored its diagram in the new problem (code and diagram disagree)",
-                                       "events": ["carol adds q (code 1)", "carol deletes q", "carol adds q (code 2)", "first task completes"]})
+                                       "events": ["carol adds q (code 1)", "carol deletes q", "carol adds q (code 2)", "first task completes"], "get": body[:600]})
             time.sleep(22)
     finally:
         server.close()
@@ -2203,7 +2231,8 @@ def check_C17(ck, res, replay):
                     kq, rq, before, after = run.snapshots[-1]
                     def foreign(docs):
                         return sorted(json.dumps(d, sort_keys=True, default=repr) for d in docs["probs"] if ("own%d)" % c) not in d.get("code", ""))
-                    if req[0] not in ("add", "solve") and foreign(before) != foreign(after):
+                    post = run.docs()        # taken after the background task of an add / solve has ended
+                    if foreign(before) != foreign(post) or (req[0] not in ("add", "solve") and foreign(before) != foreign(after)):
                         res.violations.append({"key": "isolation:foreign-modified:" + req[0], "what": "a request of client %d changed a problem created by another client" % c,
                                                "events": list(run.model_lines)})
                     for u in after["users"]:
@@ -2217,6 +2246,37 @@ def check_C17(ck, res, replay):
                     nreq += 1
                     if st != 401:
                         res.violations.append({"key": "unauthenticated:" + rq[0], "what": "an unauthenticated %s is answered with %s" % (rq[0], st), "events": list(run.model_lines)})
+            # scripted sweep: two users own a problem of the same name (both insertion orders); every request kind
+            # that addresses a problem by name is issued by each of them; the other user's document must not change
+            # and no response may carry the other user's tag (a database filter without the user name at any one
+            # call site shows up here with a concrete request sequence)
+            sA, sB = base + 30, base + 31
+            for cdx, nm in ((sA, "sweepA"), (sB, "sweepB")):
+                run.do(cdx, ("register", nm, "pw" + nm)); run.do(cdx, ("login", nm, "pw" + nm)); nreq += 2
+            def docs_of(tagc):
+                return sorted(json.dumps(d, sort_keys=True, default=repr) for d in run.docs()["probs"] if ("own%d)" % tagc) in d.get("code", ""))
+            for first, second, pname in ((sA, sB, "col1"), (sB, sA, "col2")):
+                for cdx in (first, second):
+                    run.do(cdx, ("add", pname, "s(own%d).ac(own%d,c(v)).s(w).ac(w,neg(w))." % (cdx, cdx), "Naive")); nreq += 1
+                for actor, other in ((second, first), (first, second)):
+                    for rq in (("solve", pname, "Ground"), ("get", pname), ("list",), ("solve", pname, "Stable"), ("get", pname)):
+                        keep = docs_of(other)
+                        st, body = run.do(actor, rq); nreq += 1
+                        if docs_of(other) != keep:
+                            res.violations.append({"key": "isolation:foreign-modified:" + rq[0], "what": "a %s request of one user changed the problem of the same name that belongs to another user" % rq[0],
+                                                   "events": run.model_lines[-40:]})
+                        if st == 200 and rq[0] in ("get", "list") and ("own%d)" % other) in body.replace("\\", ""):
+                            res.violations.append({"key": "isolation:leak:" + rq[0], "what": "a %s response contains a problem created by another user" % rq[0],
+                                                   "events": run.model_lines[-40:], "observed": body[:300]})
+                keep = docs_of(first)
+                run.do(second, ("delete", pname)); nreq += 1
+                if docs_of(first) != keep:
+                    res.violations.append({"key": "isolation:foreign-modified:delete", "what": "deleting a problem removed or changed the problem of the same name that belongs to another user",
+                                           "events": run.model_lines[-40:]})
+                st, body = run.do(first, ("get", pname)); nreq += 1
+                if st != 200 or ("own%d)" % first) not in body.replace("\\", ""):
+                    res.violations.append({"key": "isolation:own-problem-lost", "what": "after another user deleted a problem of the same name the owner's problem is gone",
+                                           "events": run.model_lines[-40:], "observed": body[:200]})
             # scripted scenario: one account open in two browsers, deleted in one, name registered again by somebody else
             b0, b1, b2 = base + 20, base + 21, base + 22
             run.do(b0, ("register", "twice", "pwA")); run.do(b0, ("login", "twice", "pwA")); run.do(b2, ("login", "twice", "pwA"))
